@@ -690,9 +690,20 @@ func (r *runner) classify(m missNode) (shape, why string) {
 					e0roots = append(e0roots, string(ce.Root))
 				}
 			}
-			if r.rootRecurs(e0roots, e0.H) {
-				got[shapeMemTreeBuild] = fmt.Sprintf("%s deleted through superseded entry (%q@%d); the newest eligible entry (%q@%d) is a write of the current chain whose Save re-produced a root hash of another height (content-identical rewrite) with memTree on: later states were built on memTree's older incarnation of that root record and still reference the superseded leaf",
-					desc, c.Key, c.H, e0.Key, e0.H)
+			// the root of the retained state that references the lost record: produced by more than one Save?
+			stateRootSaves := 0
+			for _, ce := range r.chain {
+				if ce.H == m.StateH {
+					for _, ev := range r.events {
+						if ev.Saved && ev.Root == string(ce.Root) {
+							stateRootSaves++
+						}
+					}
+				}
+			}
+			if r.rootRecurs(e0roots, e0.H) || stateRootSaves >= 2 {
+				got[shapeMemTreeBuild] = fmt.Sprintf("%s deleted through superseded entry (%q@%d); the newest eligible entry (%q@%d) is a write of the current chain; with memTree on a root hash was produced by more than one Save (at the newest version's height: %v; root of the referencing state saved %d times): a later state was built on memTree's older incarnation of that root record and persists pointers to the superseded version",
+					desc, c.Key, c.H, e0.Key, e0.H, r.rootRecurs(e0roots, e0.H), stateRootSaves)
 				continue
 			}
 		}
@@ -1454,7 +1465,7 @@ func run(c *lib.Ctx) {
 		jobs = append(jobs, job{w, stratumOf(&w)})
 		idx++
 	}
-	nClean, nTrig, nLarge := c.N(140, 2600), c.N(90, 1400), c.N(0, 20)
+	nClean, nTrig, nLarge := c.N(140, 2000), c.N(90, 1100), c.N(0, 16)
 	if c.Quick() {
 		nLarge = 0
 	}
